@@ -120,12 +120,15 @@ static void randomCase(Rng &rng, CaseResult &r) {
   int K = (int)rng.range(1, rng.chance(0.25) ? 16 : 5), S = (int)rng.range(1, rng.chance(0.2) ? 60 : 10);
   std::vector<ll> cap(K), dem(S);
   ll maxv = rng.chance(0.3) ? 3 : (rng.chance(0.5) ? 20 : 100000);
+  bool huge = rng.chance(0.1);
+  if (huge) maxv = 10000000000LL;  // demands beyond 32 bits (DemandType is long long)
   for (auto &d : dem) d = rng.range(1, maxv);
   for (auto &c : cap) c = rng.range(1, maxv);
   ll td = 0, tc = 0;
   for (auto d : dem) td += d;
   for (auto c : cap) tc += c;
   bool useFloat = rng.chance(0.5);
+  if (huge) useFloat = false;  // float costs are rescaled to ~2^29/K: the 64-bit reference objective would overflow
   int mode = (int)rng.range(0, 3);  // what to do when demand exceeds capacity
   bool balanced = rng.chance(0.2);
   if (balanced && K > 0) {  // exact balance
@@ -135,6 +138,7 @@ static void randomCase(Rng &rng, CaseResult &r) {
   std::vector<std::vector<int>> ci(K, std::vector<int>(S));
   std::vector<std::vector<float>> cf(K, std::vector<float>(S));
   int cmax = rng.chance(0.3) ? 2 : (rng.chance(0.5) ? 10 : std::min(1000000, (1 << 29) / K));
+  if (huge) cmax = std::min(cmax, 1000);  // keep the 64-bit reference objective far from overflow
   bool geometric = rng.chance(0.3);  // costs = |position difference| like the rough legalizer
   std::vector<int> ps(S), pk(K);
   for (auto &p : ps) p = (int)rng.range(0, cmax);
@@ -182,7 +186,7 @@ static void randomCase(Rng &rng, CaseResult &r) {
     r.fail("C13:solver-threw-on-a-feasible-problem", std::string(e.what()) + ": " + what + " " + pbStr(pb.capacities(), dem, pb.costs()));
   }
   r.nontrivial = S >= 2 && K >= 2;
-  r.sig = what + "K" + std::to_string(K) + "S" + std::to_string(std::min(S / 4, 15)) + "c" + std::to_string(cmax <= 2 ? 0 : cmax <= 10 ? 1 : 2) + (td > tc ? "U" : td == tc ? "B" : "L") + (geometric ? "g" : "r");
+  r.sig = what + "K" + std::to_string(K) + "S" + std::to_string(std::min(S / 4, 15)) + "c" + std::to_string(cmax <= 2 ? 0 : cmax <= 10 ? 1 : 2) + (td > tc ? "U" : td == tc ? "B" : "L") + (geometric ? "g" : "r") + (huge ? "H" : "");
 }
 
 // exhaustive tiny: case = (S, K, demands, capacities) with values 1..3; enumerates every cost matrix over {0..cmaxv}
